@@ -570,6 +570,25 @@ SCAN_LINK = dict(region='scan_link', file='cmdline/scan.c', begin='static void s
                  proto='static void region_scan_link(struct snapraid_scan *scan, int is_diff, const char *sub, const char *linkto, unsigned link_flag)', prologue='\t/* the region text is the whole body block of scan_link() */')
 
 
+SCAN_DEALLOC = dict(region='scan_file_deallocate', file='cmdline/scan.c', begin='static void scan_file_deallocate(struct snapraid_scan* scan, struct snapraid_file* file)',
+                    end='static void scan_file_delayed_allocate(struct snapraid_scan* scan, struct snapraid_file* file)', max_lines=90, expect_loops=1,
+                    proto='static void region_scan_file_deallocate(struct snapraid_scan *scan, struct snapraid_file *file)')
+SCAN_ALLOC = dict(region='scan_file_allocate', file='cmdline/scan.c', begin='static void scan_file_allocate(struct snapraid_scan* scan, struct snapraid_file* file)',
+                  end=' * Delete the specified file from the parity.', max_lines=100, expect_loops=2,
+                  proto='static void region_scan_file_allocate(struct snapraid_scan *scan, struct snapraid_file *file)', prologue='\t/* whole body of scan_file_allocate() followed by the opening of the next doc comment (closed by the end marker) */')
+
+
+def scanalloc_obs():
+    A = 'harness/h_scanalloc.c'
+    b = 'files of at most 2 blocks, 5 parity positions, hash size 16'
+    return [Ob('scan.file_deallocate', A, 'h_scan_file_deallocate', inject=[SCAN_DEALLOC, SCAN_ALLOC], unwind=18, small_path=True, timeout=900, mem=6, cost=5, replay=False, kind='bounded', bound=b,
+               functions=['scan_file_deallocate (cmdline/scan.c; whole body extracted mechanically, callees routed to stubs)', 'hash_invalid_set (cmdline/elem.h)'],
+               note='every state (BLK / CHG / REP) and hash per block, past hashes sanitised at load time or not'),
+            Ob('scan.file_allocate', A, 'h_scan_file_allocate', inject=[SCAN_DEALLOC, SCAN_ALLOC], unwind=18, small_path=True, timeout=900, mem=6, cost=8, replay=False, kind='bounded', bound=b,
+               functions=['scan_file_allocate (cmdline/scan.c; whole body extracted mechanically, callees routed to stubs)', 'hash_zero_set / hash_invalid_set / block_has_updated_hash (cmdline/elem.h)'],
+               note='every occupant (empty / deleted with any hash / file block) per position, first free position, new blocks with or without inherited hash, rehash pending per position, past hashes sanitised or not')]
+
+
 def scanfile_obs():
     F = 'harness/h_scanfile.c'
     return [Ob('scan.link', F, 'h_scan_link', inject=[SCAN_FILE, SCAN_EMPTYDIR, SCAN_LINK], defs={'VERIF_SCANLINK': None}, unwind=6, small_path=True, timeout=600, mem=6, cost=3, replay=False,
@@ -699,7 +718,7 @@ def c06(tier, seed):
            solver=KISSAT, defs={'ND': 3 if tier == 'thorough' else 2}, timeout=3000, mem=8, cost=40, replay=False, kind='bounded', bound='2 disk slots (thorough: 3)',
            functions=['state_sync_process: region "proceed with the parity" .. "finally schedule parity write" (cmdline/sync.c, extracted mechanically)'],
            note='every combination of error / I/O error / silent / fixed / needs-update / rehash flags, block states and presence on 3 disks; callees replaced by recording contracts (dfcc)'),
-    ] + sync_fixchk_obs() + fs_obs() + fstree_obs()
+    ] + sync_fixchk_obs() + fs_obs() + fstree_obs() + scanalloc_obs()
 
 
 def c05(tier, seed):
